@@ -15,6 +15,16 @@
 (* in TraceAsm.tla the one projected from the rewritten module).           *)
 (* Every finished scenario is emitted as a case for the real               *)
 (* RewritingContext (harness/asm/runner.py run_rwx).                       *)
+(*                                                                         *)
+(* C13, "a name that exists in the module always binds to that module's    *)
+(* symbol object": scenarios may start with a name N in one of the states  *)
+(*   code  - a symbol of the module on a code block                        *)
+(*   fn    - a function just added with register_insert_function(N, ...)   *)
+(*   none  - a symbol without referent       proxy - an extern symbol      *)
+(*   new   - the name does not exist                                       *)
+(* followed by get_or_insert_extern_symbol(N, lib) and a patch that calls  *)
+(* (or takes the address of) N.  LEVEL B keeps the symbol table; LEVEL A   *)
+(* is C13_ExternBinding.                                                   *)
 (***************************************************************************)
 EXTENDS Sequences, SequencesExt, Naturals, Integers, FiniteSets, Functions, Json, TLC
 
@@ -22,12 +32,15 @@ CONSTANTS RwMaxOps,    \* operations registered in one context
           RwSites,     \* number of blocks of the module that can be insertion sites
           RwEmit       \* print cases
 
-VARIABLES rwOps,    \* registered operations, in registration order
+VARIABLES rwExt,    \* [pre, ref]: state of the name N before, and how the last patch uses it ("off": no N)
+          rwSyms,   \* symbol table of the module as far as N is concerned: {[nm, obj, kind]}
+          rwGot,    \* object returned by get_or_insert_extern_symbol (0: not called)
+          rwOps,    \* registered operations, in registration order
           rwPh,     \* "reg" | "fns" | "mods" | "done"
           rwPid,    \* RewritingContext._patch_id
           rwTodo,   \* operations still to assemble in the current phase
           rwMade    \* <<[op, id]>> : operation `op` was assembled with suffix "_id"
-rwVars == <<rwOps, rwPh, rwPid, rwTodo, rwMade>>
+rwVars == <<rwExt, rwSyms, rwGot, rwOps, rwPh, rwPid, rwTodo, rwMade>>
 
 RwT(k, l, a, n) == [k |-> k, l |-> l, a |-> a, n |-> n, ch |-> 1]
 RwTemp == {"x", "y"}
@@ -35,11 +48,24 @@ RwTemp == {"x", "y"}
 RwCatalogue ==
   << <<RwT("label", "x", 0, 0), RwT("op", "", 0, 1), RwT("jmp", "x", 0, 2)>>,
      <<RwT("label", "x", 0, 0), RwT("op", "", 0, 1), RwT("label", "y", 0, 0), RwT("jcc", "y", 0, 2), RwT("jmp", "x", 0, 2)>>,
-     <<RwT("jmp", "y", 0, 2), RwT("label", "y", 0, 0), RwT("op", "", 1, 5)>> >>
+     <<RwT("jmp", "y", 0, 2), RwT("label", "y", 0, 0), RwT("op", "", 1, 5)>>,
+     \* 4: body of the function named N; 5 / 6: the patch that calls N / takes its address
+     <<RwT("op", "", 0, 1), RwT("ret", "", 0, 1)>>,
+     <<RwT("label", "x", 0, 0), RwT("op", "", 0, 1), RwT("call", "n", 0, 5)>>,
+     <<RwT("label", "x", 0, 0), RwT("lea", "n", 0, 7), RwT("op", "", 0, 1)>> >>
+RwUserPatches == 1..3
 RwLabels(toks) == {toks[i].l : i \in {j \in DOMAIN toks : toks[j].k = "label" /\ toks[j].l \in RwTemp}}
 RwAlphabet ==
-  {[k |-> "ins", p |-> p, site |-> s] : p \in DOMAIN RwCatalogue, s \in 1..RwSites}
-    \cup {[k |-> "fn", p |-> p, site |-> 0] : p \in DOMAIN RwCatalogue}
+  {[k |-> "ins", p |-> p, site |-> s] : p \in RwUserPatches, s \in 1..RwSites}
+    \cup {[k |-> "fn", p |-> p, site |-> 0] : p \in RwUserPatches}
+RwExtChoices ==
+  {[pre |-> "off", ref |-> ""]}
+    \cup {[pre |-> pre, ref |-> ref] : pre \in {"code", "fn", "none", "proxy", "new"}, ref \in {"call", "lea"}}
+\* the operations as registered: the function N first, the patch using N last
+RwEff(ops, ext) ==
+  (IF ext.pre = "fn" THEN <<[k |-> "fn", p |-> 4, site |-> 0]>> ELSE <<>>)
+    \o ops
+    \o (IF ext.pre # "off" THEN <<[k |-> "ins", p |-> IF ext.ref = "call" THEN 5 ELSE 6, site |-> 1]>> ELSE <<>>)
 
 ---------------------------------------------------------------------------
 \* LEVEL A.  S = [ops : <<[k, p, site, toks]>>, syms : <<[nm, b, sfx, op]>>, rn, exc]
@@ -63,6 +89,22 @@ C13_UniqueAcrossPatches(S) ==
   /\ \A j, q \in DOMAIN S.ops :
         (j # q /\ RwSuffixes(S, j) # {} /\ RwSuffixes(S, q) # {}) => RwSuffixes(S, j) # RwSuffixes(S, q)
 
+\* C13_ExternBinding.  X = what happened to the name N:
+\*   [pre, ref, hadold, gotold, nnamed, kind, finalgot, libs, nrefs, refsgot, exc]
+\*   hadold   a symbol named N existed before get_or_insert_extern_symbol
+\*   gotold   the call returned that very object      finalgot  it is in the module afterwards
+\*   nnamed   symbols named N after apply()           kind      what the returned symbol refers to
+\*   libs     entries the call added to the libraries table
+\*   nrefs / refsgot   expressions naming N after apply(), and whether all name the returned object
+C13_ExternBinding(X) ==
+  /\ X.exc = (IF X.pre = "none" /\ X.ref = "call" THEN "UnsupportedAssemblyError" ELSE "")
+  /\ X.nnamed = 1 /\ X.finalgot
+  /\ IF X.pre = "new"
+     THEN ~X.hadold /\ X.kind = "proxy" /\ X.libs = 1
+     ELSE /\ X.hadold /\ X.gotold /\ X.libs = 0
+          /\ X.kind = (IF X.pre = "fn" THEN "code" ELSE X.pre)
+  /\ (X.exc = "" => X.nrefs = 1 /\ X.refsgot)
+
 ---------------------------------------------------------------------------
 \* LEVEL B
 RwWithToks(ops) == [j \in DOMAIN ops |-> [k |-> ops[j].k, p |-> ops[j].p, site |-> ops[j].site,
@@ -81,38 +123,66 @@ RwModelSyms(ops, made) ==
 RwModelView(ops, made) ==
   [ops |-> RwWithToks(ops), syms |-> RwModelSyms(ops, made), rn |-> [l \in RwTemp |-> l], exc |-> ""]
 
-RwInit == rwOps = <<>> /\ rwPh = "reg" /\ rwPid = 0 /\ rwTodo = <<>> /\ rwMade = <<>>
+RwNamed(syms) == {y \in syms : y.nm = "n"}
+RwInit ==
+  /\ rwExt \in RwExtChoices
+  /\ rwSyms = (IF rwExt.pre \in {"code", "none", "proxy"} THEN {[nm |-> "n", obj |-> 1, kind |-> rwExt.pre]} ELSE {})
+  /\ rwGot = 0 /\ rwOps = <<>> /\ rwPh = (IF rwExt.pre = "off" THEN "reg" ELSE "pre")
+  /\ rwPid = 0 /\ rwTodo = <<>> /\ rwMade = <<>>
+RwRegisterExternFunction ==     \* register_insert_function(N, body): a new symbol on a new code block
+  /\ rwPh = "pre" /\ rwExt.pre = "fn" /\ RwNamed(rwSyms) = {}
+  /\ rwSyms' = rwSyms \cup {[nm |-> "n", obj |-> 1, kind |-> "code"]}
+  /\ UNCHANGED <<rwExt, rwGot, rwOps, rwPh, rwPid, rwTodo, rwMade>>
+RwGetOrInsertExtern ==          \* get_or_insert_extern_symbol(N, lib)
+  /\ rwPh = "pre" /\ (rwExt.pre = "fn" => RwNamed(rwSyms) # {})
+  /\ IF RwNamed(rwSyms) # {}
+     THEN rwGot' = (CHOOSE y \in RwNamed(rwSyms) : TRUE).obj /\ rwSyms' = rwSyms
+     ELSE rwGot' = 2 /\ rwSyms' = rwSyms \cup {[nm |-> "n", obj |-> 2, kind |-> "proxy"]}
+  /\ rwPh' = "reg"
+  /\ UNCHANGED <<rwExt, rwOps, rwPid, rwTodo, rwMade>>
 RwRegister ==          \* insert_at / register_insert_function
-  /\ rwPh = "reg" /\ Len(rwOps) < RwMaxOps
+  /\ rwPh = "reg" /\ Len(rwOps) < (IF rwExt.pre = "off" THEN RwMaxOps ELSE 1)
   /\ \E o \in RwAlphabet : rwOps' = Append(rwOps, o)
-  /\ UNCHANGED <<rwPh, rwPid, rwTodo, rwMade>>
+  /\ UNCHANGED <<rwExt, rwSyms, rwGot, rwPh, rwPid, rwTodo, rwMade>>
 RwBeginApply ==        \* apply(): function bodies first
-  /\ rwPh = "reg" /\ Len(rwOps) >= 2
-  /\ rwPh' = "fns" /\ rwTodo' = RwIdx(rwOps, "fn")
-  /\ UNCHANGED <<rwOps, rwPid, rwMade>>
+  /\ rwPh = "reg" /\ (rwExt.pre = "off" => Len(rwOps) >= 2)
+  /\ rwPh' = "fns" /\ rwTodo' = RwIdx(RwEff(rwOps, rwExt), "fn")
+  /\ UNCHANGED <<rwExt, rwSyms, rwGot, rwOps, rwPid, rwMade>>
 RwAssemble ==          \* _invoke_patch: _patch_id += 1; Assembler(temp_symbol_suffix = "_" + id)
   /\ rwPh \in {"fns", "mods"} /\ rwTodo # <<>>
   /\ rwPid' = rwPid + 1
   /\ rwMade' = Append(rwMade, [op |-> Head(rwTodo), id |-> rwPid + 1])
   /\ rwTodo' = Tail(rwTodo)
-  /\ UNCHANGED <<rwOps, rwPh>>
+  /\ UNCHANGED <<rwExt, rwSyms, rwGot, rwOps, rwPh>>
 RwFunctionsDone ==
   /\ rwPh = "fns" /\ rwTodo = <<>>
-  /\ rwPh' = "mods" /\ rwTodo' = RwModOrder(rwOps)
-  /\ UNCHANGED <<rwOps, rwPid, rwMade>>
+  /\ rwPh' = "mods" /\ rwTodo' = RwModOrder(RwEff(rwOps, rwExt))
+  /\ UNCHANGED <<rwExt, rwSyms, rwGot, rwOps, rwPid, rwMade>>
 RwApplyDone ==
   /\ rwPh = "mods" /\ rwTodo = <<>>
   /\ rwPh' = "done"
-  /\ UNCHANGED <<rwOps, rwPid, rwTodo, rwMade>>
-RwNext == RwRegister \/ RwBeginApply \/ RwAssemble \/ RwFunctionsDone \/ RwApplyDone
+  /\ UNCHANGED <<rwExt, rwSyms, rwGot, rwOps, rwPid, rwTodo, rwMade>>
+RwNext == RwRegisterExternFunction \/ RwGetOrInsertExtern \/ RwRegister \/ RwBeginApply \/ RwAssemble
+          \/ RwFunctionsDone \/ RwApplyDone
 RwSpec == RwInit /\ [][RwNext]_rwVars
 
-RwCase == [kind |-> "rwx", ops |-> RwWithToks(rwOps),
+RwCase == [kind |-> "rwx", ops |-> RwWithToks(RwEff(rwOps, rwExt)), ext |-> rwExt,
            mids |-> [q \in DOMAIN rwMade |-> <<rwMade[q].op, rwMade[q].id>>]]
+\* what the model says happened to N
+RwModelExt ==
+  LET got == {y \in rwSyms : y.obj = rwGot}
+      refused == rwExt.pre = "none" /\ rwExt.ref = "call"     \* a symbol without referent is no call target
+  IN  [pre |-> rwExt.pre, ref |-> rwExt.ref, hadold |-> rwExt.pre \in {"code", "fn", "none", "proxy"},
+       gotold |-> rwGot = 1, nnamed |-> Cardinality(RwNamed(rwSyms)),
+       kind |-> IF got = {} THEN "" ELSE (CHOOSE y \in got : TRUE).kind, finalgot |-> got # {},
+       libs |-> IF rwGot = 2 THEN 1 ELSE 0, nrefs |-> IF refused THEN 0 ELSE 1, refsgot |-> TRUE,
+       exc |-> IF refused THEN "UnsupportedAssemblyError" ELSE ""]
 RwInv ==
   /\ rwPid = Len(rwMade)
   /\ (rwPh = "done" =>
-        /\ Len(rwMade) = Len(rwOps)
-        /\ C13_UniqueAcrossPatches(RwModelView(rwOps, rwMade))
-        /\ (RwEmit => PrintT("CASE " \o ToJson(RwCase))))
+        LET E == RwEff(rwOps, rwExt)
+        IN  /\ Len(rwMade) = Len(E)
+            /\ (RwModelExt.exc = "" => C13_UniqueAcrossPatches(RwModelView(E, rwMade)))
+            /\ (rwExt.pre # "off" => C13_ExternBinding(RwModelExt))
+            /\ (RwEmit => PrintT("CASE " \o ToJson(RwCase))))
 =============================================================================
